@@ -723,6 +723,187 @@ Proof.
   intros op s outprev HS. apply c09_refresh_model. exact HS.
 Qed.
 
+(* ---------- the successor of a stopped instance holds what the broadcasts say (C09 clause 6) ---------- *)
+(* every op appends to the message log exactly the snapshot it delivers from another sender and what it sends *)
+Definition delivered (op : rop) : list bcast :=
+  match op with Deliver (MReq p rs) => [(p, rs)] | _ => [] end.
+
+Lemma refresh_mlog s : mlog (fst (refresh s)) = mlog s.
+Proof. unfold refresh. destruct (changed _ _); reflexivity. Qed.
+
+Lemma rec_step_mlog cfg s p o : mlog (fst (rec_step cfg s p o)) = mlog s ++ o_sent (snd (rec_step cfg s p o)).
+Proof.
+  pose proof (rec_step_case cfg s p o) as Hc. destruct (rec_step cfg s p o) as [s1 out]. cbn [fst snd] in *.
+  destruct Hc as [Ha|f t Ha Hlt|f t s' calls Ha Hfo Hto Hr|f t r Ha Hfo Hot Hr]; cbn [o_sent out_nil with_trk mlog];
+    try reflexivity; try (now rewrite app_nil_r).
+  replace s' with (fst (refresh (with_trk s (ts (complete (trk s) p t)) (tout (complete (trk s) p t))))) by now rewrite Hr.
+  now rewrite refresh_mlog.
+Qed.
+
+Lemma fresh_step_mlog cfg s p : mlog (fst (fresh_step cfg s p)) = mlog s ++ o_sent (snd (fresh_step cfg s p)).
+Proof.
+  unfold fresh_step. destruct (pget p (cli s)); [|cbn [fst snd o_sent out_nil]; now rewrite app_nil_r].
+  pose proof (rec_step_mlog cfg s p z) as H. destruct (rec_step cfg s p z) as [s1 out]. cbn [fst snd] in *.
+  destruct (o_calls out); exact H.
+Qed.
+
+Lemma pump_mlog cfg : forall k s p, mlog (fst (pump cfg s p k)) = mlog s ++ o_sent (snd (pump cfg s p k)).
+Proof.
+  induction k as [|k IH]; intros s p; cbn [pump]; [cbn [fst snd o_sent out_nil]; now rewrite app_nil_r|].
+  pose proof (fresh_step_mlog cfg s p) as H. destruct (fresh_step cfg s p) as [s1 o1]. cbn [fst snd] in *.
+  specialize (IH s1 p). destruct (pump cfg s1 p k) as [s2 o2]. cbn [fst snd out_app o_sent] in *.
+  rewrite IH, H. now rewrite app_assoc.
+Qed.
+
+Lemma rec_crash_mlog cfg s p :
+  mlog (fst (rec_crash cfg s p)) = mlog s ++ o_sent (snd (rec_crash cfg s p))
+  /\ trk (fst (rec_crash cfg s p)) = replay (mlog (fst (rec_crash cfg s p))).
+Proof.
+  unfold rec_crash. destruct (pget p (cli s)); [|cbn; now rewrite app_nil_r].
+  destruct (would_send s p z); [cbn; now rewrite app_nil_r|].
+  pose proof (rec_step_mlog cfg s p z) as H. destruct (rec_step cfg s p z) as [s1 out]. cbn [fst snd crash_state mlog trk] in *.
+  split; [exact H|reflexivity].
+Qed.
+
+Lemma rstep_mlog cfg op s :
+  mlog (fst (rstep cfg s op)) = mlog s ++ delivered op ++ o_sent (snd (rstep cfg s op)).
+Proof.
+  destruct op as [p k|p d|p d|p o|p o|code wm lows| |ps| |p f t|cerr pcs|m| |p|p d]; cbn [rstep delivered app].
+  - apply pump_mlog.
+  - apply rec_step_mlog.
+  - unfold ahead_step. destruct (pget p (cli s)); [|cbn; now rewrite app_nil_r].
+    destruct (pget p (active s)) as [[f to]|]; [|cbn; now rewrite app_nil_r].
+    destruct (_ && _); [apply rec_step_mlog|cbn; now rewrite app_nil_r].
+  - apply rec_step_mlog.
+  - cbn. now rewrite app_nil_r.
+  - unfold kerr_step. destruct ((code =? 1) || (code =? 2)); [|cbn; now rewrite app_nil_r].
+    destruct wm; [cbn; now rewrite app_nil_r|]. destruct (kerr_loop _ _ _). reflexivity.
+  - pose proof (refresh_mlog s) as H. destruct (refresh s). cbn [fst snd o_sent] in *. now rewrite app_nil_r.
+  - cbn. now rewrite app_nil_r.
+  - set (s1 := {| owned := []; active := active s; trk := trk s; cli := cli s; mlog := mlog s |}).
+    pose proof (refresh_mlog s1) as H. destruct (refresh s1). cbn [fst snd o_sent] in *. rewrite H. cbn. now rewrite app_nil_r.
+  - destruct (trim _ _). reflexivity.
+  - destruct (file_all _ _). reflexivity.
+  - destruct m; cbn [fst snd delivered app with_trk mlog o_sent out_nil]; rewrite ?app_nil_r; reflexivity.
+  - cbn. now rewrite app_nil_r.
+  - apply rec_crash_mlog.
+  - unfold wild_step. destruct (pget p (cli s)); [|cbn; now rewrite app_nil_r].
+    destruct (pget p (active s)); [apply rec_step_mlog|cbn; now rewrite app_nil_r].
+Qed.
+
+Lemma stop_trk_replay cfg op s :
+  match op with Crash | RecCrash _ => True | _ => False end ->
+  trk (fst (rstep cfg s op)) = replay (mlog (fst (rstep cfg s op))).
+Proof.
+  destruct op; try contradiction; intros _; cbn [rstep]; [reflexivity|apply rec_crash_mlog].
+Qed.
+
+(* what a replay holds for p: the last entry of the log for p *)
+Definition last_step (p : Z) (acc : option (list req)) (m : bcast) : option (list req) :=
+  if fst m =? p then Some (snd m) else acc.
+Definition last_for (p : Z) (log : list bcast) : option (list req) := fold_left (last_step p) log None.
+
+Lemma lookup_receive_fold p : forall (m : list bcast) (t : tstate),
+  lookup p (fold_left (fun t x => receive t (fst x) (snd x)) m t) = fold_left (last_step p) m (lookup p t).
+Proof.
+  induction m as [|[k v] m IH]; intros t; [reflexivity|]. cbn [fold_left fst snd]. rewrite IH. f_equal.
+  unfold receive, last_step. cbn [fst snd]. destruct (k =? p) eqn:E.
+  - assert (k = p) by lia. subst. apply r_lookup_set_same.
+  - apply r_lookup_set_other. lia.
+Qed.
+
+Lemma lookup_replay p log : lookup p (replay log) = last_for p log.
+Proof. unfold replay, last_for. now rewrite lookup_receive_fold. Qed.
+
+Lemma last_for_app p l m : last_for p (l ++ m) = fold_left (last_step p) m (last_for p l).
+Proof. unfold last_for. apply fold_left_app. Qed.
+
+(* ... which depends only on the entries of p, in their order: the stable sort by partition does not change it *)
+Definition for_key (p : Z) (m : bcast) : bool := fst m =? p.
+
+Lemma last_fold_filter p : forall (m : list bcast) acc,
+  fold_left (last_step p) m acc = fold_left (last_step p) (filter (for_key p) m) acc.
+Proof.
+  induction m as [|x m IH]; intros acc; [reflexivity|]. cbn [filter fold_left]. unfold for_key at 1, last_step at 2.
+  destruct (fst x =? p) eqn:E; cbn [fold_left]; [unfold last_step at 3; rewrite E|]; apply IH.
+Qed.
+
+Lemma for_key_pair p k (v : list req) : for_key p (k, v) = (k =? p).
+Proof. reflexivity. Qed.
+
+Lemma filter_ins_key p k (v : list req) l :
+  filter (for_key p) (ins_key k v l) = if k =? p then (k, v) :: filter (for_key p) l else filter (for_key p) l.
+Proof.
+  induction l as [|[k' v'] l IH]; cbn [ins_key filter]; [rewrite for_key_pair; reflexivity|].
+  destruct (k <=? k') eqn:E; cbn [filter]; rewrite ?for_key_pair; [reflexivity|].
+  rewrite IH. destruct (k' =? p) eqn:E2; [|reflexivity].
+  destruct (k =? p) eqn:E3; [exfalso; lia|reflexivity].
+Qed.
+
+Lemma filter_sort_key p (l : list bcast) : filter (for_key p) (sort_key l) = filter (for_key p) l.
+Proof.
+  induction l as [|[k v] l IH]; [reflexivity|]. unfold sort_key in *. cbn [fold_right fst snd].
+  rewrite filter_ins_key, IH. cbn [filter]. rewrite for_key_pair. reflexivity.
+Qed.
+
+Lemma last_fold_sort_key p (m : list bcast) acc :
+  fold_left (last_step p) (sort_key m) acc = fold_left (last_step p) m acc.
+Proof. rewrite (last_fold_filter p (sort_key m)), filter_sort_key, <- last_fold_filter. reflexivity. Qed.
+
+(* the log the decision procedure accumulates agrees, partition by partition, with the model's message log *)
+Definition log_agrees (log : list bcast) (s : rstate) : Prop := forall p, last_for p log = last_for p (mlog s).
+
+Lemma log_agrees_step cfg op s log :
+  log_agrees log s ->
+  log_agrees (log ++ delivered op ++ sort_key (o_sent (snd (rstep cfg s op)))) (fst (rstep cfg s op)).
+Proof.
+  intros H p. rewrite rstep_mlog, !last_for_app, !fold_left_app, last_fold_sort_key, (H p). reflexivity.
+Qed.
+
+Lemma successor_ok_model log s :
+  log_agrees log s -> trk s = replay (mlog s) -> successor_ok (sort_key (trk s)) log = true.
+Proof.
+  intros H Ht. unfold successor_ok. apply forallb_forall. intros p _.
+  rewrite reqs_of_sort_key, Ht. unfold reqs_of. rewrite !lookup_replay, (H p). apply req_list_eqb_refl.
+Qed.
+
+Lemma c09_successor_model cfg : forall ops s log,
+  log_agrees log s -> c09_successor ops (model_l cfg s ops) log = [].
+Proof.
+  induction ops as [|op ops IH]; intros s log H; unfold model_l; cbn [rrun map c09_successor]; [reflexivity|].
+  pose proof (log_agrees_step cfg op s log H) as Hstep. pose proof (stop_trk_replay cfg op s) as Hstop.
+  destruct (rstep cfg s op) as [s' out]. cbn [map c09_successor fst snd mk_opobs b_sent b_trk] in *.
+  fold (model_l cfg s' ops).
+  match goal with |- _ ++ c09_successor _ _ ?lg = [] => change lg with (log ++ delivered op ++ sort_key (o_sent out)) end.
+  rewrite (IH s' _ Hstep), app_nil_r.
+  destruct op; try reflexivity; rewrite (successor_ok_model _ s' Hstep (Hstop I)); reflexivity.
+Qed.
+
+Theorem c09_successor_sound cfg ops : c09_successor ops (model_l cfg init_state ops) [] = [].
+Proof. apply c09_successor_model. intros p. reflexivity. Qed.
+
+(* on a small history: the request of partition 0 is completed before the stop, so the successor holds no request; a
+   successor that still holds the completed request is flagged *)
+Definition succ_cfg : rcfg := {| c_maxrec := 100; c_every := 2; c_maxlag := 10 |}.
+Definition succ_ops : list rop := [Request 0 0 3; SetOwned [0]; Refresh; Pump 0 5; Crash].
+Definition doctor_last_trk (t : tstate) (l : list opobs) : list opobs :=
+  match rev l with
+  | a :: r => rev r ++ [{| b_emits := b_emits a; b_calls := b_calls a; b_sent := b_sent a; b_err := b_err a; b_acks := b_acks a;
+                           b_waits := b_waits a; b_active := b_active a; b_owned := b_owned a; b_trk := t; b_cli := b_cli a |}]
+  | [] => []
+  end.
+
+Example c09_successor_example :
+  c09_successor succ_ops (model_l succ_cfg init_state succ_ops) [] = []
+  /\ b_trk (last (model_l succ_cfg init_state succ_ops) obs0) = [(0, [])]
+  /\ c09_successor succ_ops (doctor_last_trk [(0, [(0, 3)])] (model_l succ_cfg init_state succ_ops)) [] = [(6, [1])]
+  (* the whole spec_c09: on the model only the known shape of F6 (hand-off coverage, the record AT from is missing:
+     (2, [1])), no clause 6; on the doctored observation (the request looks outstanding, so the hand-off coverage clause
+     does not apply) exactly clause 6 *)
+  /\ spec_c09 succ_cfg succ_ops (model_l succ_cfg init_state succ_ops) = [(2, [1])]
+  /\ spec_c09 succ_cfg succ_ops (doctor_last_trk [(0, [(0, 3)])] (model_l succ_cfg init_state succ_ops)) = [(6, [1])].
+Proof. vm_compute. repeat split; reflexivity. Qed.
+
 (* ---------- summary ---------- *)
 Lemma model_obs_logic cfg ops : model_obs (ILogic cfg ops) = OLogic (model_l cfg init_state ops).
 Proof. reflexivity. Qed.
@@ -732,7 +913,50 @@ Theorem spec_c07_clauses_234_sound cfg ops :
   scan c07_flags ops obs0 l = [] /\ scan c07_complete ops obs0 l = [] /\ scan c07_trunc ops obs0 l = [].
 Proof. cbv zeta. split; [apply c07_flags_sound|split; [apply c07_complete_sound|apply c07_trunc_sound]]. Qed.
 
-Theorem spec_c09_clauses_145_sound cfg ops :
+Theorem spec_c09_clauses_1456_sound cfg ops :
   let l := model_l cfg init_state ops in
-  scan c09_refresh ops obs0 l = [] /\ c09_revoked ops l false = [] /\ scan c09_owned ops obs0 l = [].
-Proof. cbv zeta. split; [apply c09_refresh_sound|split; [apply c09_revoked_sound|apply c09_owned_sound]]. Qed.
+  scan c09_refresh ops obs0 l = [] /\ c09_revoked ops l false = [] /\ scan c09_owned ops obs0 l = []
+  /\ c09_successor ops l [] = [].
+Proof.
+  cbv zeta. split; [apply c09_refresh_sound|split; [apply c09_revoked_sound|split; [apply c09_owned_sound|apply c09_successor_sound]]].
+Qed.
+
+(* the whole of spec_c09 on the model's own observations: whatever it reports is a coverage clause (2: hand-off, 3: progress -
+   decided through cover_fails / outside_fails, where the known findings F6 / F11 show); clauses 1, 4, 5 and 6 never fail *)
+Lemma dedup_fail_In x l : In x (dedup_fail l) -> In x l.
+Proof.
+  induction l as [|y l IH]; [exact (fun H => H)|]. unfold dedup_fail in *. cbn [fold_right].
+  destruct (existsb _ _); [intros H; right; apply IH; exact H|].
+  intros [H|H]; [left; exact H|right; apply IH; exact H].
+Qed.
+
+Lemma cover_fails_clause cl wd cfg ops l x : In x (cover_fails cl wd cfg ops l) -> fst x = cl.
+Proof.
+  unfold cover_fails. intros H. apply in_flat_map in H as [p [_ H]].
+  destruct (cover_of cfg ops l p) as [[cv [[f0 t] lows]]|]; [|destruct H].
+  destruct (Bool.eqb (cv_done cv) wd); [|destruct H].
+  destruct (filter _ (filter _ (cv_missing cv))); [|destruct H as [<-|[]]; reflexivity].
+  destruct (filter _ (cv_missing cv)); [|destruct H as [<-|[]]; reflexivity].
+  destruct (cv_missing cv); [destruct H|destruct H as [<-|[]]; reflexivity].
+Qed.
+
+Lemma outside_fails_clause cl cfg ops l x : In x (outside_fails cl cfg ops l) -> fst x = cl.
+Proof.
+  unfold outside_fails. intros H. apply in_flat_map in H as [p [_ H]].
+  destruct (cover_of cfg ops l p) as [[cv ?]|]; [|destruct H].
+  destruct (cv_outside cv); [destruct H|destruct H as [<-|[]]; reflexivity].
+Qed.
+
+Theorem spec_c09_model_only_coverage cfg ops x :
+  In x (spec_c09 cfg ops (model_l cfg init_state ops)) -> fst x = 2 \/ fst x = 3.
+Proof.
+  unfold spec_c09. unfold model_l at 1. rewrite map_length, rrun_length, Nat.eqb_refl.
+  rewrite c09_refresh_sound, c09_revoked_sound, c09_owned_sound, c09_successor_sound. cbn [app]. rewrite app_nil_r.
+  intros H. apply dedup_fail_In in H. apply in_app_or in H as [H|H].
+  - destruct (has_handoff ops); [|destruct H]. left.
+    apply in_app_or in H as [H|H]; [exact (cover_fails_clause _ _ _ _ _ _ H)|exact (outside_fails_clause _ _ _ _ _ H)].
+  - right. exact (cover_fails_clause _ _ _ _ _ _ H).
+Qed.
+
+Corollary spec_c09_model_no_clause_6 cfg ops d : ~ In (6, d) (spec_c09 cfg ops (model_l cfg init_state ops)).
+Proof. intros H. apply spec_c09_model_only_coverage in H. cbn [fst] in H. lia. Qed.
